@@ -1,7 +1,8 @@
 """C03 — check configuration and MANIFEST entry."""
 CFG = {
     "count": {"quick": 150000, "thorough": 8000000},
-    "lean_files": ["GeoModel/Orient.lean", "GeoModel/Segment.lean", "GeoModel/F64.lean", "GeoModel/Ops/C03.lean"],
+    "lean_files": ["GeoModel/Orient.lean", "GeoModel/Segment.lean", "GeoModel/F64.lean", "GeoModel/Ops/C03.lean",
+                   "GeoProofs/Lemmas/SegmentSpec.lean", "GeoProofs/Lemmas/RingSpec.lean"],
     "rule": "adversarial f64 inputs: exactly collinear dyadic triples with one coordinate nudged by 0-3 ulps at magnitudes 2^-20..2^58, "
             "the classic 'tiny offsets near a large base point' pattern, rings scaled to 2^0..2^45 with query points on / one ulp off an edge; "
             "ops: Kernel::orient2d (f64 robust, i64 simple incl. beyond the overflow bound), Line x Coord intersects/contains, "
@@ -19,7 +20,13 @@ MANIFEST = {
     "technique": "Lean 4 proof (algebraic laws of the exact determinant; 64-bit wrap-around exactness) + model/implementation correspondence on adversarial f64 and i64 inputs",
     "text": "The model evaluates every predicate in exact rational arithmetic, so agreement with it on an input means the implementation's answer was not "
             "flipped by rounding. Proved: translation/swap/cyclic/scale laws of the determinant, degenerate cases, and cross_i64_exact (the wrapped i64 "
-            "evaluation equals the unbounded one whenever all intermediates fit, with a witness that the bound matters). Correspondence: orient2d (f64, i64), "
+            "evaluation equals the unbounded one whenever all intermediates fit, with a witness that the bound matters); orientation-level corollaries "
+            "orient_translate / orient_swap / orient_cyclic / orient_scale_pos; lineCoord_iff_segMem (point-on-segment = membership in {a + t(b-a), t in [0,1]}); "
+            "ringEdge_none_sub, ringPos_boundary_sub (OnBoundary implies the point is on an edge) and ringPos_boundary_iff_partial (for a closed ring with >= 2 "
+            "coordinates OnBoundary holds exactly for the points of the edges; closedness is the function's debug_assert precondition and "
+            "ringPos_open_ring_witness shows it is needed). Lemmas/SegmentSpec.lean additionally proves the rectangle and triangle kernels against their "
+            "point-set meaning (rectRect_iff, triCoord_iff_mem, triContainsCoord_iff_interior). Not proved: Inside/Outside of the winding loop against a "
+            "point-set definition of the polygon interior. Correspondence: orient2d (f64, i64), "
             "point-on-segment, point-in-ring, point-in-triangle on near-degenerate inputs; the evidence counts the cases on which a naive f64 evaluation "
             "would differ, showing that the stream separates the robust kernel from the naive one.",
     "note": "Trusted: Lean kernel + audited axioms; harness/generators (sampling); the `robust` crate is compared, not proved. winding_order, "
